@@ -59,7 +59,9 @@ def part_row_sweep(ctx, part):
     if ctx.quick:       # the probes directory is swept in full by the thorough tier
         r = ctx.rng("pick")
         probes = [i for i in gen if i[0].startswith("probe:")]
-        gen = [i for i in gen if not i[0].startswith("probe:")] + r.sample(probes, min(8, len(probes)))
+        tiny = [i for i in gen if i[0] == "byte"]
+        gen = [i for i in gen if not i[0].startswith("probe:") and i[0] != "byte"] + r.sample(probes, min(8, len(probes))) + \
+            r.sample(tiny, min(24, len(tiny))) + [i for i in tiny if i[1] in (b"\xef", b"\xef\xbb", b"\xe3\x81", b"\xf0\x9f\x98")]
     inputs += gen
 
     def modes(src):
